@@ -52,6 +52,10 @@ type CompCase struct {
 	Offer      []string `json:"offer,omitempty"`    // leg server: extension header lines of the client
 	Announce   []string `json:"announce,omitempty"` // leg client: extension header lines of the 101
 	Msgs       []CMsg   `json:"msgs"`
+	// RespExt (pair leg): the server application passes a responseHeader that
+	// carries a Sec-WebSocket-Extensions line of its own.  The library may
+	// refuse that; if the handshake succeeds, both ends must still agree.
+	RespExt bool `json:"resp_ext,omitempty"`
 }
 
 var announcePool = [][]string{
@@ -108,6 +112,7 @@ func genCompCase(t *rapid.T) CompCase {
 	c.Leg = rapid.SampledFrom([]string{"pair", "pair", "server", "client"}).Draw(t, "leg")
 	c.DialerOn = rapid.Bool().Draw(t, "dialer_on")
 	c.UpgraderOn = rapid.Bool().Draw(t, "upgrader_on")
+	c.RespExt = c.Leg == "pair" && rapid.IntRange(0, 4).Draw(t, "resp_ext") == 0
 	switch c.Leg {
 	case "server":
 		c.Offer = rapid.SampledFrom(extOffers).Draw(t, "offer")
@@ -128,7 +133,7 @@ func genCompCase(t *rapid.T) CompCase {
 			m.SetOn = rapid.IntRange(1, 2).Draw(t, "set_on")
 		}
 		if rapid.IntRange(0, 3).Draw(t, "setlevel") == 0 {
-			m.SetLevel = rapid.IntRange(-2, 9).Draw(t, "level")
+			m.SetLevel = rapid.OneOf(rapid.IntRange(-2, 9), rapid.SampledFrom([]int{-3, 10, 12, 100, -50})).Draw(t, "level")
 		}
 		m.Compressed = rapid.Bool().Draw(t, "compressed")
 		m.MidLevel = -100
@@ -152,6 +157,10 @@ func genCompCase(t *rapid.T) CompCase {
 // pairUp performs a real handshake between a Dialer and an Upgrader over
 // scripted transports, sequentially: when the client has written its request
 // the Upgrader runs, and what it wrote becomes the client's input.
+// pairRespHeader, if set, is the responseHeader the application passes to
+// Upgrade in pairUp.
+var pairRespHeader http.Header
+
 func pairUp(dialerOn, upgraderOn bool, offerOverride []string) (client, server *websocket.Conn, trC, trS *xport.ScriptConn, respHead []byte, err error) {
 	trC = xport.NewScriptConn(nil, nil)
 	trS = xport.NewScriptConn(nil, nil)
@@ -179,7 +188,7 @@ func pairUp(dialerOn, upgraderOn bool, offerOverride []string) (client, server *
 		}
 		w := &fakeRW{conn: trS, brw: bufio.NewReadWriter(bufio.NewReaderSize(trS, 4096), bufio.NewWriterSize(trS, 4096))}
 		u := websocket.Upgrader{EnableCompression: upgraderOn, CheckOrigin: allowOrigin}
-		server, upErr = u.Upgrade(w, req, nil)
+		server, upErr = u.Upgrade(w, req, pairRespHeader)
 		if upErr != nil {
 			c.AppendInputLocked([]byte(fmt.Sprintf("HTTP/1.1 %d Error\r\nContent-Length: 0\r\n\r\n", w.status)))
 			return
@@ -239,6 +248,13 @@ func applySettings(conn *websocket.Conn, m CMsg) error {
 		conn.EnableWriteCompression(false)
 	}
 	if m.SetLevel != -100 {
+		if m.SetLevel < -2 || m.SetLevel > 9 {
+			// an invalid level is refused and changes nothing
+			if err := conn.SetCompressionLevel(m.SetLevel); err == nil {
+				return fmt.Errorf("SetCompressionLevel(%d) was accepted", m.SetLevel)
+			}
+			return nil
+		}
 		return conn.SetCompressionLevel(m.SetLevel)
 	}
 	return nil
@@ -380,7 +396,18 @@ func checkC15(c CompCase, o *Obs) error {
 	rsv1 := 0
 	switch c.Leg {
 	case "pair":
+		pairRespHeader = nil
+		if c.RespExt {
+			pairRespHeader = http.Header{}
+			pairRespHeader.Set("Sec-WebSocket-Extensions", "permessage-deflate; server_no_context_takeover; client_no_context_takeover")
+			defer func() { pairRespHeader = nil }()
+		}
 		client, server, trC, trS, head, err := pairUp(c.DialerOn, c.UpgraderOn, nil)
+		if err != nil && c.RespExt {
+			o.Class("pair_app_extension_header_refused")
+			o.Class("leg_pair")
+			return nil
+		}
 		if err != nil {
 			return fmt.Errorf("handshake between Dialer(compression=%v) and Upgrader(compression=%v) failed: %v", c.DialerOn, c.UpgraderOn, err)
 		}
